@@ -16,11 +16,14 @@
    - whenever a pattern coerces to an expression, likewise;
    - captures, literals, signed numbers and attribute chains go there and back unchanged; any other expression kind is
      refused.
-   NOT PROVED: the other ~40 coercion routines (sequences, argument lists, aliases, with-items, statements ...), source
+   - (models/Alias.v: _coerce_to_alias, tied to as_('alias') / FST(ast, 'alias') by correspondence) an expression coerces
+     to an import alias iff it is an attribute chain on a plain name, and the name - built back to front by the loop - is
+     the chain's identifiers in source order joined by dots.
+   NOT PROVED: the other ~40 coercion routines (sequences, argument lists, with-items, statements ...), source
    formatting of the result, FST vs pure-AST agreement, copy mode, coercing puts: decided on the implementation by the
    kind x mode matrix of py/props/C19.py (partial). *)
 From Coq Require Import List Bool Arith.
-From PF Require Import models.Coerce proofs.CoerceProofs.
+From PF Require Import models.Coerce proofs.CoerceProofs models.Alias proofs.AliasProofs.
 Import ListNotations.
 
 Theorem C19_expr_to_pattern_keeps_leaves : forall e p, e2p e = Some p -> pleaves p = eleaves e.
@@ -35,6 +38,14 @@ Theorem C19_simple_round_trip : forall e p, e2p e = Some p ->
   (match e with EName _ | EConst _ | EAttr _ _ | ENeg _ => True | _ => False end) -> p2e p = Some e.
 Proof. exact simple_round_trip. Qed.
 Print Assumptions C19_simple_round_trip.
+
+Theorem C19_alias_name_is_the_dotted_path_in_source_order : forall e, to_alias e = dotted e.
+Proof. exact to_alias_is_dotted_path. Qed.
+Print Assumptions C19_alias_name_is_the_dotted_path_in_source_order.
+
+Theorem C19_alias_refuses_exactly_what_is_not_a_name_chain : forall e, to_alias e = None <-> parts e = None.
+Proof. exact to_alias_refuses_exactly_non_chains. Qed.
+Print Assumptions C19_alias_refuses_exactly_what_is_not_a_name_chain.
 
 (* non-vacuity:  C(a, k=1) | {"s": _, **r} | [x, *y]  coerces, keeps its 9 leaves in order, and comes back *)
 Example C19_example :
